@@ -238,7 +238,11 @@ func runC15(c *fw.Ctx) {
 	// no staking traffic (undelegating the only validator's stake leaves an export without validators)
 	// and no transfers into the gov module account (x/gov's own InitGenesis refuses an account
 	// balance that differs from the recorded deposits - upstream SDK behaviour, not mainchain code)
-	w.Ent, w.Reg, w.Stream, w.Bank, w.Staking = 35, 30, 25, 0, 0
+	// hostile transfers are aimed at the module accounts the bank must refuse (the escrows of the
+	// enterprise and stream modules, the fee collector, the bonded pool): one that got through would
+	// be a balance no record backs
+	g.NoGovTarget = true
+	w.Ent, w.Reg, w.Stream, w.Bank, w.Staking = 35, 30, 25, 6, 0
 	w.EntHostile, w.GovPct, w.VetoPct, w.LowGasPct = 5, 4, 0, 0
 	RunMixed(e, g, w, r.Range(25, 45))
 	if e.Halted != "" {
